@@ -264,6 +264,44 @@ def rule_iter(ctx, fx, config):
                                     err_arm = True
             ctx.check(err_arm, "ITER", "C11:ITER:%s:skip-only-on-error" % f.npath, "documents are skipped only after their own deserialization error",
                       "skip_to_next_document is called on a path where the document deserialized successfully: the following document is lost", config, ctx.where(f, sb))
+        # after a *document-level* error (the target's deserialization failed) it is the skipper alone that decides whether the
+        # stream goes on: `finished` is set, on that arm, only where skip_to_next_document() was called and answered false —
+        # never because of what kind of error it was (an alias-wrapped type error is an ordinary type error of the document)
+        doc_err_targets = []
+        for b in sorted(f.live_blocks):
+            t = f.blocks[b]["term"]
+            if t["k"] == "switch":
+                sym = f.sym_operand(t["o"])
+                if sym[0] == "discr" and render(sym[1]) in ("value_res", "res", "*res", "&res"):
+                    for v, tg in zip(t["vals"], t["tgts"]):
+                        if v == 1:
+                            doc_err_targets.append(tg)
+        for _b, sym, tt, _ff in bool_switches(f):
+            if sym[0] == "call" and sym[1].endswith("Result::is_err"):
+                doc_err_targets.append(tt)
+        bad_fin = []
+        for wb in fin_w:
+            if not any(f.dominates(tg, wb) for tg in doc_err_targets):
+                continue
+            okw = False
+            for sb in skips:
+                tgt = f.blocks[sb]["term"]["t"]
+                if tgt is None or f.blocks[tgt]["term"]["k"] != "switch":
+                    continue
+                from ..rules import switch_edges as _se
+                e = _se(f, tgt)
+                if not e:
+                    continue
+                sym = f.sym_operand(f.blocks[tgt]["term"]["o"])
+                neg = sym[0] == "un" and sym[1] == "Not"
+                false_edge = e[0] if neg else e[1]
+                if f.edge_dominates(tgt, false_edge, wb):
+                    okw = True
+            if not okw:
+                bad_fin.append(wb)
+        ctx.check(bool(doc_err_targets) and not bad_fin, "ITER", "C11:ITER:%s:document-error-ends-only-when-skip-fails" % f.npath,
+                  "after a failed document `finished` is set only where skip_to_next_document() answered false",
+                  "after a document-level error the iterator can be marked finished without having asked skip_to_next_document() (line(s) %s): the kind of the error decides, so e.g. a type error in an aliased value ends the stream and the following documents are lost" % sorted({f.blocks[x]["term"].get("ln") for x in bad_fin}), config, ctx.where(f))
         # PROGRESS: every cycle consumes an event
         nexts = [b for b, t in f.calls() if fx.callee(t) == proto.NEXT]
         from .C01 import _consuming_blocks
